@@ -32,6 +32,7 @@ EXCEPTIONS = {
 
 def walkers(prog):
     """Yield (body, kind)."""
+    _fw_cache.clear()
     for b in prog.bodies():
         c = b["_crate"]
         tr = b.get("impl_trait")
@@ -47,14 +48,77 @@ def walkers(prog):
             yield b, "analyze"
         elif tr and tr.endswith("build::TableBuilder") and is_ast:
             yield b, "build"
-        elif b["p"].startswith("lsp4spl::features::references::find_procs"):
-            yield b, "calls"
-        elif b["p"].startswith("lsp4spl::features::references::find_vars"):
-            yield b, "vars"
-        elif b["p"].startswith("lsp4spl::features::references::find_types"):
-            yield b, "types"
-        elif b["p"].startswith("lsp4spl::features::signature_help::find_call_stmt"):
-            yield b, "calls"
+        else:
+            k = feature_walker_kind(prog, b)
+            if k:
+                yield b, k
+
+
+_fw_cache = {}
+
+
+def _own_kind(c, b):
+    """what a hand-written feature walker collects, judged from its signature and the patterns it matches"""
+    if "sig_out" not in b:
+        return None
+    out = c.tstr(b["sig_out"])
+    if "CallStatement" in out or "CallSite" in out:
+        return "calls"
+    if "ast::Identifier" not in out and "features::Ident" not in out:
+        return None
+    pats = []
+    for n in hir.nodes(b["body"]):
+        if n.get("k") == "Match":
+            pats += [a["pat"] for a in n["arms"]]
+        elif n.get("k") == "LetExpr":
+            pats.append(n["pat"])
+    vs = set()
+    for p_ in pats:
+        for alt in hir.pat_alternatives(p_):
+            v = hir.pat_variant(alt) or ""
+            vs.add(v)
+    if any(v.endswith("ast::TypeExpression::NamedType") for v in vs):
+        return "types"
+    if any(v.endswith("ast::Variable::NamedVariable") for v in vs):
+        return "vars"
+    if any(v.endswith("ast::Statement::Call") for v in vs) and not any(v.endswith("ast::Statement::Assignment") for v in vs):
+        return "calls"
+    return None
+
+
+def feature_walker_kind(prog, b, depth=0):
+    """kind of a hand-written tree walker in lsp4spl::features (None if b is not one): it has an AST node parameter (or walks
+    the Program) and collects identifiers / call statements; functions that only delegate inherit the kind of their callees."""
+    c = b["_crate"]
+    if c.name != "lsp4spl" or not b["p"].startswith("lsp4spl::features") or "/tests" in c.file_of(b["sp"]) or b["k"] not in ("fn", "assoc_fn"):
+        return None
+    if "impl_trait" in b:
+        return None
+    key = b["p"]
+    if key in _fw_cache:
+        return _fw_cache[key]
+    _fw_cache[key] = None
+    has_node_param = False
+    for p_ in b["params"]:
+        for bd in hir.pat_bindings(p_):
+            if ast_adt_of(c, bd["bt"]) or "spl_frontend::ast::" in c.tstr(bd["bt"]):
+                has_node_param = True
+    kind = None
+    if has_node_param and "sig_out" in b and not b.get("is_async"):
+        kind = _own_kind(c, b)
+        if kind is None and depth < 3 and ("ast::Identifier" in c.tstr(b["sig_out"])):
+            kinds = set()
+            for n in hir.nodes(b["body"]):
+                if n.get("k") == "Call":
+                    hb = hir.local_callee_body(prog, n)
+                    if hb is not None and hb["p"] != b["p"]:
+                        k2 = feature_walker_kind(prog, hb, depth + 1)
+                        if k2:
+                            kinds.add(k2)
+            if len(kinds) == 1:
+                kind = kinds.pop()
+    _fw_cache[key] = kind
+    return kind
 
 
 class Reach:
